@@ -19,12 +19,16 @@ for pkg in sorted(os.listdir(hooks)):
             sys.stderr.write("hook file would replace repository file: %s\n" % dst)
             sys.exit(2)
         replace[dst] = os.path.join(d, f)
-vgen = os.path.join(here, "harness", hid, "VGEN")
-if os.path.exists(vgen):
-    out = subprocess.run(["go", "run", os.path.join(here, "tools", "vgen"), "-repo", repo, "-out", scr, "-spec", vgen],
-                         capture_output=True, text=True, cwd=here)
-    if out.returncode != 0:
-        sys.stderr.write(out.stdout + out.stderr)
+# generated extracts of current repository sources (tools/vgen): added files only
+vgen_bin = os.path.join(here, "bin", "vgen")
+cmd = [vgen_bin] if os.path.exists(vgen_bin) else ["go", "run", "./tools/vgen"]
+out = subprocess.run(cmd + ["-repo", repo, "-out", scr], capture_output=True, text=True, cwd=here)
+if out.returncode != 0:
+    sys.stderr.write(out.stdout + out.stderr)
+    sys.exit(2)
+for dst, srcf in json.loads(out.stdout).items():
+    if os.path.exists(dst):
+        sys.stderr.write("generated file would replace repository file: %s\n" % dst)
         sys.exit(2)
-    replace.update(json.loads(out.stdout))
+    replace[dst] = srcf
 json.dump({"Replace": replace}, sys.stdout, indent=1)
